@@ -119,7 +119,10 @@ def alias_gate(fx):
     reach = driver_reach(fx)
     sites = 0
     for f in ro.fns_in_scope(fx, crates=("libxcp", "libfs")):
-        targets = q.calls_to(f, {FILE_CREATE, RENAME, "std::fs::OpenOptions::open", "std::fs::File::create_new"})
+        # calls that destroy or replace what the destination path names (creating calls -- symlink, mknod,
+        # mkdir -- fail with EEXIST on an existing entry and cannot harm it)
+        targets = q.calls_to(f, {FILE_CREATE, RENAME, REMOVE_FILE, "std::fs::remove_dir", "std::fs::remove_dir_all",
+                                 "std::fs::OpenOptions::open", "std::fs::File::create_new"})
         if not targets:
             continue
         for n, (bi, t) in enumerate(targets):
@@ -145,17 +148,15 @@ def alias_gate(fx):
                     obs.append(ro.region_must_fail(fx, f, v, "R-ORDER",
                                                    mkkey("R-ORDER", f.path, good, n, "same-file-fails"),
                                                    "source == destination outcome", loc=q.loc_of(t)))
-                # the test's arguments: one side from the source, the other from the destination path
+                # the test's arguments: one side is the source, the other the destination (roles)
+                import p_role
+                R_ = p_role.roles(fx)
                 for (cb, ct) in q.calls_to(f, good):
-                    roles = []
-                    for ai in range(len(ct["args"])):
-                        calls, atoms, fields = q.arg_origin_calls(f, ct, ai)
-                        args_ = sorted(set(a.extra or str(a.what) for a in atoms if a.kind == "arg"))
-                        roles.append((sorted(calls), args_))
-                    flat_args = set(a for r in roles for a in r[1])
-                    okr = len(flat_args) >= 2 or any("std::fs::File::metadata" in r[0] for r in roles)
+                    rs = [R_.operand_role(f, a) for a in ct["args"]]
+                    okr = p_role.SRC in rs and p_role.DST in rs
                     obs.append(Ob("R-ROLE", mkkey("R-ROLE", f.path, good, n, "identity-args"), okr, q.loc_of(ct), f.path,
-                                  "identity test compares %s" % roles, None if okr else dict(roles=roles)))
+                                  "identity test compares a %s value with a %s value" % tuple((rs + ["?", "?"])[:2]),
+                                  None if okr else dict(roles=rs)))
     if sites == 0:
         obs.append(anchor_ob("R-ORDER", "no truncating open of the destination reachable from the drivers"))
     return obs
@@ -292,6 +293,16 @@ def walker_gate(fx):
                                            "no_clobber && exists", forbidden_blocks=eff_blocks,
                                            loc=q.loc_of(f.blocks[sb]["term"])))
             # and it sends an Error update (the run ends non-zero even for library clients)
+        # on the no_clobber branch no effect can be reached around the existence predicate
+        preds = [sb for (sb, callee, tt, ft) in _exists_predicates(fx, f, region | {v})]
+        for n, (bi, t, h) in enumerate(effects):
+            if bi not in eff_blocks or not preds:
+                continue
+            okp = cfg.passes_through(preds, v, [bi])
+            obs.append(Ob("R-ORDER", mkkey("R-ORDER", WALKER, q.names(t)[0], n, "through-exists-test"), okp, q.loc_of(t),
+                          WALKER, "with no_clobber set, %s is reachable only through the existence test: %s" % (
+                              q.names(t)[0].split("::")[-1], okp),
+                          None if okp else dict(effect="bb%d" % bi, predicates=preds)))
         # every effect is dominated by the no_clobber test
         for n, (bi, t, h) in enumerate(effects):
             if bi not in eff_blocks:
@@ -517,6 +528,7 @@ def c09(ctx):
     ctx.add(backup_rename(fx))
     ctx.add(backup_names_exact(fx))
     ctx.add(backup_decision_table(fx))
+    ctx.add(backup_numeric_order(fx))
     ctx.add([o for o in r_err.run(fx, crates=("libxcp",)) if o.fn.startswith("libxcp::backup::")
              or (o.fn == NEW and ("rename" in o.key or "backup" in o.key))])
 
@@ -578,3 +590,118 @@ def c13(ctx):
     ctx.add(dereference_rules(fx))
     ctx.add([o for o in r_err.run(fx, crates=("libxcp",)) if o.fn == WALKER and
              ("canonicalize" in o.key or "Iterator::next" in o.key or "symlink_metadata" in o.key)])
+
+
+# --------------------------------------------------------------------------
+# added after the first round of independently seeded changes
+# --------------------------------------------------------------------------
+
+INT_TYPES = {"u8", "u16", "u32", "u64", "u128", "usize", "i8", "i16", "i32", "i64", "i128", "isize"}
+ORDERING_CALLS = {
+    "core::cmp::Ord::max", "core::cmp::Ord::min", "core::cmp::max", "core::cmp::min", "core::cmp::Ord::cmp",
+    "core::cmp::PartialOrd::lt", "core::cmp::PartialOrd::le", "core::cmp::PartialOrd::gt", "core::cmp::PartialOrd::ge",
+    "core::cmp::PartialOrd::partial_cmp", "core::cmp::max_by", "core::cmp::max_by_key",
+    "core::iter::traits::iterator::Iterator::max", "core::iter::traits::iterator::Iterator::min",
+    "core::iter::traits::iterator::Iterator::max_by", "core::iter::traits::iterator::Iterator::max_by_key",
+    "core::iter::traits::iterator::Iterator::min_by", "core::iter::traits::iterator::Iterator::min_by_key",
+    "core::slice::<impl [T]>::sort", "core::slice::<impl [T]>::sort_unstable", "core::slice::<impl [T]>::sort_by",
+    "core::slice::<impl [T]>::sort_by_key", "alloc::slice::<impl [T]>::sort", "alloc::slice::<impl [T]>::sort_by",
+    "alloc::slice::<impl [T]>::sort_by_key",
+}
+
+
+def _int_like(ty):
+    t = ty.replace("&", "").replace("mut ", "").strip()
+    for w in ("core::option::Option<", "core::iter::"):
+        if t.startswith("core::option::Option<") and t.endswith(">"):
+            t = t[len("core::option::Option<"):-1]
+    return t in INT_TYPES
+
+
+def backup_numeric_order(fx):
+    """C09: the backup number is chosen by *numeric* order: every ordering operation (max/min/compare/sort) in the
+    backup-name functions works on integers, never on names or paths (lexicographic order puts ~9~ after ~10~)."""
+    obs = []
+    n = 0
+    nfn = 0
+    for f in ro.fns_in_scope(fx, crates=("libxcp",)):
+        if not f.path.startswith("libxcp::backup::"):
+            continue
+        nfn += 1
+        for bi, t in f.calls():
+            if q.span_excluded(t["span"]):
+                continue
+            o = q.names(t)[0]
+            if o not in ORDERING_CALLS:
+                continue
+            tys = list(t.get("arg_tys", []))
+            it = t["fn"].get("iter_item")
+            if it and "Iterator::" in o:
+                tys = [it]
+            elif o.startswith("core::iter::"):
+                tys = []
+            ok = bool(tys) and all(_int_like(x) for x in tys)
+            obs.append(Ob("R-TABLE", mkkey("R-TABLE", f.path, o, n, "numeric-order"), ok, q.loc_of(t), f.path,
+                          "%s in the backup-number logic orders values of type %s" % (o.split("::")[-1], tys),
+                          None if ok else dict(types=tys, note="backup versions must be ordered numerically")))
+            n += 1
+    if n == 0:
+        obs.append(anchor_ob("R-TABLE", "no ordering operation in the backup-number functions (scanned %d)" % nfn))
+    return obs
+
+
+def helpers_always_apply(fx):
+    """C10/C18/C11: each attribute helper performs its primitive on every path that returns Ok."""
+    from p_thread import ok_blocks
+    obs = []
+    table = [("libfs::common::copy_permissions", SET_PERMISSIONS), ("libfs::common::copy_timestamps", SET_TIMES),
+             ("libfs::common::copy_owner", FCHOWN), ("libfs::common::sync", FSYNC),
+             ("libfs::common::allocate_file", FTRUNCATE)]
+    for fn_, prim in table:
+        f = fx.fn(fn_)
+        if f is None:
+            obs.append(anchor_ob("R-ORDER", fn_))
+            continue
+        cfg = cfg_of(f)
+        perf = [b for b, t, h in ro.performers(fx, f, prim)]
+        oks = ok_blocks(f)
+        ok = bool(perf) and bool(oks) and cfg.passes_through(perf, 0, oks)
+        obs.append(Ob("R-ORDER", mkkey("R-ORDER", fn_, prim, 0, "ok-requires"), ok, f.loc(), fn_,
+                      "%s returns Ok only after %s: %s" % (fn_.split("::")[-1], prim.split("::")[-1], ok),
+                      None if ok else dict(performers=perf, ok_blocks=oks)))
+    return obs
+
+
+def extents_forwarded(fx):
+    """C01/C11: every extent the kernel reports is appended to the map (the push dominates the latch of the loop
+    over the mapped extents): an extent that is skipped is data that is never queued."""
+    obs = []
+    f = fx.fn("libfs::linux::map_extents")
+    if f is None:
+        return [anchor_ob("R-ORDER", "libfs::linux::map_extents")]
+    cfg = cfg_of(f)
+    du = defuse(f)
+    pushes = []
+    for bi, t in q.calls_to(f, "alloc::vec::Vec::<T, A>::push"):
+        l = op_local(t["args"][1])
+        atoms, _f, _s = Prov(f, through_agg=False).origins(l)
+        if any(a.kind == "agg" and a.what == "libfs::Extent" for a in atoms):
+            pushes.append((bi, t))
+    if not pushes:
+        return [anchor_ob("R-ORDER", "map_extents pushes libfs::Extent values")]
+    loops = cfg.loops()
+    for n, (bi, t) in enumerate(pushes):
+        inner = None
+        for h, body in loops.items():
+            if bi in body and (inner is None or len(body) < len(inner[1])):
+                inner = (h, body)
+        if inner is None:
+            obs.append(anchor_ob("R-ORDER", "the extent push is inside a loop"))
+            continue
+        h, body = inner
+        latches = [u for (u, v) in cfg.back_edges() if v == h and u in body]
+        ok = all(cfg.dominates(bi, u) for u in latches)
+        obs.append(Ob("R-ORDER", mkkey("R-ORDER", f.path, "Vec::push(Extent)", n, "every-iteration"), ok, q.loc_of(t), f.path,
+                      "every extent returned by FIEMAP is appended to the map (no iteration skips the push): %s" % ok,
+                      None if ok else dict(push="bb%d" % bi, latches=latches)))
+    return obs
